@@ -337,7 +337,7 @@ def large_tree_rooting_findings(rng, tier):
         # (with pseudo-random tip states the log-likelihood RISES with the branch scale up to saturation near
         #  n ln(1/4): short branches make the observed differences improbable)
         lo, hi = 0.01, 0.5
-        target = -726.0
+        target = -739.0          # a likelihood of about 1e-321: a handful of significant bits left in a subnormal
         for _ in range(30):
             mid = math.sqrt(lo * hi)
             f = value(tree, mid)
@@ -347,7 +347,7 @@ def large_tree_rooting_findings(rng, tier):
                 hi = mid
         x = math.sqrt(lo * hi)
         base = value(tree, x)
-        if not (-744.0 < base < -709.0):
+        if not (-744.0 < base < -730.0):
             return found, nrun          # the band could not be hit with this tree: nothing to compare
         vals = [("as generated", base)]
         for k in range(3):
